@@ -316,6 +316,11 @@ class SymNum(Sym):
     def is_int(self):
         return z3.is_int(self.t)
 
+    @property
+    def is_integer(self):
+        # sympy-Integer duck attribute (chempy accepts sympy Integers as multipliers of equilibria)
+        return z3.is_int(self.t)
+
     # quantities' duck attribute read unguarded by chempy (_get_R): identity
     @property
     def simplified(self):
@@ -552,6 +557,16 @@ class SegStr(object):
 
     def __repr__(self):
         return "SegStr(%r)" % (self.segs,)
+
+
+def fork_int(v, lo, hi):
+    """concrete python int equal to the symbolic integer v on this path (forks over lo..hi)"""
+    if not isinstance(v, SymNum):
+        return v
+    for k in range(lo, hi + 1):
+        if SymBool(v.t == k):
+            return k
+    raise PathAbort("value outside %d..%d" % (lo, hi))
 
 
 def Real(name):
